@@ -31,6 +31,8 @@ CONSTANTS Readers,        \* set of reader task ids (integers 1..)
           LockBeforeBump, \* TRUE = repaired order
           DropSessions,   \* TRUE = the writer may also simply drop a session (Drop for InputSession:
                           \* the commit runs in a spawned task that owns the phase guard)
+          EarlyRelease,   \* mutation the code does NOT have (selftest): the spawned commit of a dropped session
+                          \* gives the phase guard back BEFORE it propagates
           Emit            \* TRUE = print maximal behaviours (generator mode)
 
 W == 0  \* the writer task id
@@ -166,8 +168,14 @@ DropSession ==
     /\ Step(W, "drop_session")
     /\ UNCHANGED <<ts, lockR, lockW, wq, inVal, committed, changed, xval, xlv, xdirty, rpc, rts, rsnap, rq, bad, done>>
 
+SpawnedRelease ==       \* (mutation) the guard is dropped first
+    /\ EarlyRelease /\ spawned /\ lockW
+    /\ lockW' = FALSE
+    /\ Step(W, "spawned_release")
+    /\ UNCHANGED <<ts, lockR, wq, inVal, committed, changed, xval, xlv, xdirty, rpc, rts, rsnap, rq, wpc, sess, spawned, bad, done>>
+
 SpawnedCommit ==        \* the spawned task: dirty propagation, submit, release the lock
-    /\ spawned
+    /\ spawned /\ (EarlyRelease => ~lockW)
     /\ xdirty' = (xdirty \/ (changed /\ xval # 0))
     /\ committed' = inVal
     /\ lockW' = FALSE
@@ -190,7 +198,7 @@ Finish ==
 Next ==
     \/ \E r \in Readers : TrackedLock(r) \/ TrackedSample(r) \/ QueryX(r) \/ DropTracked(r)
     \/ SessBump \/ SessRequest \/ SessLocked \/ SetInput \/ Commit
-    \/ DropSession \/ SpawnedCommit
+    \/ DropSession \/ SpawnedCommit \/ SpawnedRelease
     \/ Finish
 
 Spec == Init /\ [][Next]_vars
